@@ -28,6 +28,16 @@ def sig_fake_alt_negative(desc, events, inv):
     return True
 
 
+def sig_short_route(desc, events, inv):
+    """F-C15-3 / F-C05-1: the whole route is not longer than 5 miles + the train: SavedSim::update_movement
+    (est_time_structs.rs:52) only steps while offset < offset_end - 5 mi or (finished and speed > 0), so a train that
+    starts at rest within 5 miles of the end of its route never moves, and the returned network stops at the origin link."""
+    if inv not in ("RouteFaithful", "RouteValid"):
+        return False
+    total_m = 100 * sum(st[1] for st in desc["stages"])
+    return any(total_m - 8047 <= 18 * t["ncars"] + 50 for t in desc["trains"])
+
+
 def _shift(ev):
     """Re-times the second train's plan so that it starts together with the first one (in a final snapshot):
     opposing trains then run through each other, following trains enter every link simultaneously."""
@@ -117,7 +127,7 @@ GROUP = dict(
                                  "only in the pyo3 build of altrios-core",
                                  "times compared at 1 ms resolution with a tolerance of 2 ms"]),
     },
-    sigs={"fake_alt_negative": sig_fake_alt_negative},
+    sigs={"fake_alt_negative": sig_fake_alt_negative, "short_route": sig_short_route},
     fault_models=[dict(cfg="MCDispatch_fault_flip.cfg", expect=["OppExclusive"]),
                   dict(cfg="MCDispatch_fault_lock.cfg", expect=["LockoutExclusive"]),
                   dict(cfg="MCDispatch_fault_prevce.cfg", expect=["Fifo", "Headway"]),
